@@ -65,7 +65,7 @@ func c10xSweep(h *olareg.Server, repos []string, tags []string, mans []string, b
 func c10xProperty(t *rapid.T, st *Stats) {
 	tmp := mkTemp("c10x")
 	defer os.RemoveAll(tmp)
-	steps := c12fHistory(t)
+	steps := c12fHistoryOpt(t, rapid.Bool().Draw(t, "epilogue"))
 	// the epilogue of the C12 generator collects; here nothing is collected (the policy is off), the steps stay harmless
 	trace := []string{}
 	fail := func(key, f string, a ...any) { Fail(t, st, key, fmt.Sprintf(f, a...), trace, nil) }
